@@ -2638,7 +2638,8 @@ impl Formatter {
     if self.html {
       format!("<table class=\"mech-table\">{}<tbody class=\"mech-table-body\">{}</tbody></table>",header,rows)
     } else {
-      format!("{}{}", header, rows)
+      // Inline table syntax: | field<kind> ... | row | row |
+      format!("|{} |{}", header, rows)
     }
   }
 
@@ -2649,7 +2650,7 @@ impl Formatter {
       if self.html {
         src = format!("{}<th class=\"mech-table-field\">{}</th>",src, f);
       } else {
-        src = format!("{}{}",src, f);
+        src = format!("{} {}",src, f);
       }
     }
     if self.html {
@@ -2672,7 +2673,7 @@ impl Formatter {
     if self.html {
       format!("<tr class=\"mech-table-row\">{}</tr>",src)
     } else {
-      src
+      format!(" {} |", src)
     }
   }
 
@@ -2695,7 +2696,7 @@ impl Formatter {
     if self.html {
       format!("<div class=\"mech-field\"><span class=\"mech-field-name\">{}</span><span class=\"mech-field-kind\">{}</span></div>",name,kind)
     } else {
-      format!("{}: {}", name, kind)
+      format!("{}{}", name, kind)
     }
   }
 
